@@ -286,6 +286,9 @@ class Concrete:
     def int64(self, name):
         return int(self._get(name, 0))
 
+    def str(self, name):
+        return str(self._get(name, ""))
+
     def fp(self, name):
         v = self._get(name, 0.0)
         if isinstance(v, str):
@@ -369,6 +372,9 @@ class Explorer:
 
     def fp(self, name):
         return SymFloat(self._decl(name, z3.FP(name, F64), "fp"))
+
+    def str(self, name):
+        return SymStr(self._decl(name, z3.String(name), "str"))
 
     def int64(self, name):
         """an integer in [-2**63, 2**63) backed by a 64-bit bit-vector (exact, fast int -> double conversion)"""
@@ -708,6 +714,8 @@ def evaluate(obs, model):
         return model.eval(obs.e, model_completion=True).as_long()
     if isinstance(obs, SymBool):
         return z3.is_true(model.eval(obs.e, model_completion=True))
+    if isinstance(obs, SymStr):
+        return model.eval(obs.e, model_completion=True).as_string()
     if isinstance(obs, (list, tuple)):
         return type(obs)(evaluate(o, model) for o in obs) if type(obs) in (list, tuple) else [evaluate(o, model) for o in obs]
     if isinstance(obs, dict):
@@ -879,3 +887,84 @@ def pytype_of(x):
 
 def is_proxy(x):
     return isinstance(x, (SymInt, SymFloat, SymComplex, SymOpaque, SymBool))
+
+
+# ---------------------------------------------------------------------------------------
+class SymStr:
+    """symbolic str (z3 String, unbounded length).  Supports what attribute-name handling code does:
+    ==, slicing with concrete bounds, startswith/endswith, concatenation with str.  Formatting gives a placeholder."""
+    pytype = str
+
+    def __init__(self, e):
+        self.e = e
+
+    @staticmethod
+    def _lift(o):
+        if isinstance(o, SymStr):
+            return o.e
+        if isinstance(o, str):
+            return z3.StringVal(o)
+        return NotImplemented
+
+    def __eq__(self, o):
+        z = self._lift(o)
+        if z is NotImplemented:
+            return False
+        return SymBool(z3.simplify(self.e == z))
+
+    def __ne__(self, o):
+        z = self._lift(o)
+        if z is NotImplemented:
+            return True
+        return SymBool(z3.simplify(self.e != z))
+
+    def __hash__(self):
+        CUR.taint("hash() of a symbolic string (unmodelled C boundary)")
+
+    def __len__(self):
+        return CUR.enumerate_int(z3.Length(self.e))
+
+    def length(self):
+        return SymInt(z3.Length(self.e))
+
+    def __getitem__(self, key):
+        if not isinstance(key, slice) or key.step not in (None, 1):
+            CUR.taint("unsupported index into a symbolic string")
+        n = z3.Length(self.e)
+
+        def norm(v, default):
+            if v is None:
+                return default
+            if isinstance(v, SymInt):
+                v = v.e
+                return z3.If(v < 0, z3.If(n + v < 0, z3.IntVal(0), n + v), z3.If(v > n, n, v))
+            v = int(v)
+            if v < 0:
+                return z3.If(n + v < 0, z3.IntVal(0), n + v)
+            return z3.If(n < v, n, z3.IntVal(v))
+        a = norm(key.start, z3.IntVal(0))
+        b = norm(key.stop, n)
+        ln = z3.If(b > a, b - a, z3.IntVal(0))
+        return SymStr(z3.simplify(z3.SubString(self.e, a, ln)))
+
+    def startswith(self, p):
+        return SymBool(z3.simplify(z3.PrefixOf(self._lift(p), self.e)))
+
+    def endswith(self, p):
+        return SymBool(z3.simplify(z3.SuffixOf(self._lift(p), self.e)))
+
+    def __add__(self, o):
+        z = self._lift(o)
+        return NotImplemented if z is NotImplemented else SymStr(z3.Concat(self.e, z))
+
+    def __radd__(self, o):
+        z = self._lift(o)
+        return NotImplemented if z is NotImplemented else SymStr(z3.Concat(z, self.e))
+
+    def __str__(self):
+        return "<symstr>"
+
+    __repr__ = __str__
+
+    def __format__(self, spec):
+        return "<symstr>"
